@@ -185,13 +185,21 @@ impl FinalityTracker {
         };
 
         match status {
-            FinalizationStatus::Notarized(hash)
-            | FinalizationStatus::Finalized(hash)
-            | FinalizationStatus::ImplicitlyFinalized(hash) => {
+            FinalizationStatus::Notarized(hash) => {
                 assert_eq!(&hash, block_hash, "consensus safety violation");
                 FinalizationEvent::default()
             }
-            FinalizationStatus::ImplicitlySkipped => FinalizationEvent::default(),
+            // slot is already decided, a late notarization must not undo that
+            FinalizationStatus::Finalized(ref hash)
+            | FinalizationStatus::ImplicitlyFinalized(ref hash) => {
+                assert_eq!(hash, block_hash, "consensus safety violation");
+                self.status.insert(*slot, status);
+                FinalizationEvent::default()
+            }
+            FinalizationStatus::ImplicitlySkipped => {
+                self.status.insert(*slot, status);
+                FinalizationEvent::default()
+            }
             FinalizationStatus::FinalPendingNotar => {
                 let mut event = FinalizationEvent::default();
                 self.status
@@ -221,9 +229,12 @@ impl FinalityTracker {
         };
 
         match status {
-            FinalizationStatus::FinalPendingNotar
-            | FinalizationStatus::Finalized(_)
-            | FinalizationStatus::ImplicitlyFinalized(_) => FinalizationEvent::default(),
+            FinalizationStatus::FinalPendingNotar => FinalizationEvent::default(),
+            // slot is already decided, a late finalization certificate must not undo that
+            FinalizationStatus::Finalized(_) | FinalizationStatus::ImplicitlyFinalized(_) => {
+                self.status.insert(slot, status);
+                FinalizationEvent::default()
+            }
             FinalizationStatus::Notarized(block_hash) => {
                 let mut event = FinalizationEvent::default();
                 self.status
